@@ -76,6 +76,33 @@ func main() {
 			emit(reexec(c), "corpus")
 		}
 	}
+	// deterministic boundary stream: every branching operation at every special value / threshold +-1ulp
+	for _, kind := range []int{K64, K32} {
+		for _, op := range []string{"Log1pExp", "Sigmoid", "Abs", "Logistic", "Sqrt", "Exp", "Log", "Log1p", "Tanh"} {
+			for _, v := range specialVals {
+				p := &prog{regs: map[int]adScalar{0: newMagic(kind, v), 1: newMagic(kind, 0), 2: newMagic(kind, 0)}, kinds: map[int]int{0: kind, 1: kind, 2: kind}}
+				stepCase(p, Instr{Op: "SetVariable", C: 0, I: 0, N: 1, Ord: 2})
+				in := Instr{Op: op, C: 1, A: 0}
+				if op == "Sigmoid" {
+					in.T = []int{2}
+				}
+				emit(stepCase(p, in), "boundary:"+op)
+			}
+		}
+		for _, op := range []string{"LogAdd", "LogSub", "Min", "Max", "Pow", "Div"} {
+			for i, v := range specialVals {
+				w2 := specialVals[(i*7+3)%len(specialVals)]
+				p := &prog{regs: map[int]adScalar{0: newMagic(kind, v), 1: newMagic(kind, w2), 2: newMagic(kind, 0), 3: newMagic(kind, 0)}, kinds: map[int]int{0: kind, 1: kind, 2: kind, 3: kind}}
+				stepCase(p, Instr{Op: "SetVariable", C: 0, I: 0, N: 2, Ord: 2})
+				stepCase(p, Instr{Op: "SetVariable", C: 1, I: 1, N: 2, Ord: 2})
+				in := Instr{Op: op, C: 2, A: 0, B: 1, T: []int{3}}
+				if op != "LogAdd" && op != "LogSub" {
+					in.T = nil
+				}
+				emit(stepCase(p, in), "boundary:"+op)
+			}
+		}
+	}
 	rng := NewRng(o.Seed)
 	for k := 0; k < o.N; k++ {
 		genProgram(rng.Split(), w, emit)
@@ -115,6 +142,9 @@ func main() {
 
 // reexec re-runs a stored case from its pre-state on the current library.
 func reexec(c Case) Case {
+	if c.Ins.Par == 0 {
+		c.Ins.Par = float64(c.Ins.ParJ)
+	}
 	p := &prog{regs: map[int]adScalar{}, kinds: map[int]int{}}
 	for i, id := range c.Ids {
 		p.regs[id] = restore(c.Pre[i])
